@@ -76,6 +76,7 @@ class Console:
         self.answered: list[tuple] = []
         self.pid = 0x40
         self.apply_controls = True
+        self.ignore_controls: set[str] = set()  # control kinds the console receives but does not act on (no status follows)
         self.scripts: dict[str, list] = {}  # request kind -> per-request actions: "prompt" | ["late", d] | "never"
 
     # -- state -----------------------------------------------------------------
@@ -260,7 +261,7 @@ class Console:
             return [self.f_zone_status(pid)]
         if k == "error_info_request":
             return [self.f_error_info(pid, r["ac"])]
-        if not self.apply_controls:
+        if not self.apply_controls or k in self.ignore_controls:
             return None
         if k == "group_control":
             z = self.zone.get(r["group"])
